@@ -2,10 +2,14 @@
 """Prints the markdown table "which checks catch which seeded changes" from seeded/*/meta.json."""
 import json, glob, os
 rows = []
+neutral = []
 for f in sorted(glob.glob('/verif/seeded/*/meta.json')):
     m = json.load(open(f))
     name = os.path.basename(os.path.dirname(f))
     verdict = "; ".join("%s: %s" % (k, v) for k, v in m["verdict"].items())
+    if m.get("neutralised"):
+        neutral.append("%s — %s" % (name, m["neutralised"]))
+        continue
     files = ", ".join(m.get("files_changed") or [])
     summ = (m.get("summary") or "").replace("|", "/").replace("\n", " ")
     if len(summ) > 230:
@@ -24,6 +28,8 @@ noin = sum(1 for r in rows if "no-failing-input-found" in r and "concrete replay
 miss = tot - conc - noin
 print("\n%d seeded changes confirmed (each compiles, passes the pinned suite, and its demonstration fails with it and passes without): %d reported with a concrete replay, %d reported through a broken tie/correspondence only (no-failing-input-found), %d not detected." % (tot, conc, noin, miss))
 
+if neutral:
+    print("\nNot counted (a later repair of /repo made the change harmless): " + "; ".join(neutral))
 sys.stdout = _real
 text = _buf.getvalue()
 if len(sys.argv) > 1 and sys.argv[1] == "--splice":   # SPLICE into DESIGN.md between the markers
